@@ -617,8 +617,7 @@ def register(tpl):
             cc = case_class(base)
             agg["classes"][cc] = agg["classes"].get(cc, 0) + 1
             tuples.add(digest([cc, "none", 0])[:16])
-            if req.get("want_digests"):
-                agg["digests"][str(seed)] = digest([base, res])
+            run_digests = [digest([base, res])]
             # probes
             classes = [it["cls"] for it in base["items"]]
             inv = [c for c in classes if c in INVALID_CLASSES]
@@ -649,6 +648,7 @@ def register(tpl):
                 for plan in plans:
                     d2 = dict(base, plan=plan)
                     r2, V2 = run_one(d2)
+                    run_digests.append(digest([plan, r2]))
                     agg["fault_runs"] += 1
                     account(d2, r2, V2, seed)
                     if any(f["op"] == "close" for f in r2["fired"]):
@@ -659,6 +659,8 @@ def register(tpl):
                         probe("EPIPE_on_stdout")
                     if inv and r2["fired"]:
                         probe("fault_during_invalid_option_run")
+            if req.get("want_digests"):
+                agg["digests"][str(seed)] = digest(run_digests)
         agg["traces"] = sorted(traces)
         agg["tuples"] = sorted(tuples)
         return agg
